@@ -2876,6 +2876,8 @@ class Evaluator:
                 if not (isinstance(f, Ext) and f.name == 'str'):   # map(str, xs) is read by the printer rules as it is
                     each = Sym('each:_m')
                     return Comp('gen', self.apply(f, (each,), (), self._cur_state, self._cur_depth), (('_m', xs, ()),))
+        if n.split('.')[-1] == 'MappingProxyType' and len(args) == 1 and not kwargs:
+            return args[0]      # a read-only view: every read the rules model goes through to the mapping
         if n in ('frozenset', 'set') and len(args) == 1 and isinstance(args[0], ClassRef):
             ci = self.m.classes.get(args[0].name)
             if ci is not None and ci.is_enum and not ci.is_flag:
